@@ -7,26 +7,41 @@ from vlib import core
 
 T = "machine-checked proof in Coq 8.16 (theorems over an executable Gallina model) + correspondence check model vs implementation + exact-rational oracle"
 INFO = {
- "C01": ("sketch-level rank theorem (Props/Rank.v C01_*): for every input, q and monotone mapping the answer is repr of an order statistic at floor/ceil of q(n-1), accuracy from the mapping hypotheses; correspondence: implementation vs extracted sketch model on mapping tables observed from the implementation; oracle in exact rationals against the true order statistics", "partial w.r.t. the float64 evaluation of the mappings (C03's gap); rnd hypotheses (monotone, fixes integers <= 2^53) are those of binary64 rounding, not proved for the Flocq instance", "5/C01"),
- "C02": ("merge algebra on Layer A (Props/Sketch.v C02_*: merge trees = flat adds, comm/assoc, empty no-op, collapsing normal form) + store refinements; correspondence + twin oracle (merged sketch observes exactly like the single sketch, argument unchanged)", "self-merge not claimed; the refinement store->Layer A is proved for dense, paginated, sparse(=Layer A) and in progress for collapsing", "5/C02"),
- "C03": ("real-analysis theorems for the three ideal mappings (Props/C03.v, 51 theorems: monotone, containment, bin ratio, alpha-accuracy, constructor consistency, int32) + exact-rational oracle on the implementation at adversarial points (bin edges +-ulps, binade boundaries, range ends)", "partial: the float64 evaluation through Go's math.Log/Exp/Exp2/Log2/Pow/Cbrt is validated (tolerance 1e-12), not proved; no executable model of the float glue yet", "5/C03"),
- "C04": ("refinement theorems dense (Props/C04dense.v) and paginated (Props/C04pag.v) stores -> Layer A for every operation, observer and history, for every growth/compaction policy and sort; Layer A algebra (Props/LayerA.v); correspondence on random programs + independent python shadow", "paginated MinIndex/MaxIndex/KeyAtRank are modelled through the merged scan rather than loop by loop; Go maps/sort/append are modelled, not verified; Copy aliasing is decided by correspondence only", "5/C04"),
- "C05": ("clamp algebra on Layer A (Props/LayerA.v A8_*: get/total/range/length/idempotence/absorption/scaling, stepwise clamp = clamp of exact content) and the collapsing-store refinement (Props/C05.v when present); correspondence on programs with 12 bin limits incl. wide-into-empty merges; len(bins) <= N through the hook", "the refinement of adjust/merge of the collapsing stores is in progress (agent); until it lands the store-level claim rests on Layer A theorems + correspondence", "5/C05"),
- "C06": ("wire theorems (Props/Wire.v C06_*): serialisation is a homomorphism, decoding a concatenation = merging, sparse encoder emits grammar, round trip; correspondence incl. the documentation-only decoder reading every implementation encoding; implementation-side oracles (all target kinds, prefixes, concatenations, decode-into-non-empty)", "encoder theorems cover the sparse store (dense/paginated encoders are run, not proved); weights must survive the +1/-1 transform", "5/C06"),
- "C07": ("grammar theorems (Props/Wire.v C07_*): the documentation-only parser inverts serialisation for every well-formed stream; the implementation decoder model accepts the grammar into Layer A stores; correspondence: implementation bytes read by ref_decode, grammar streams from an independent python encoder decoded by the implementation into every store kind", "flag constants are written down from the documentation, never derived from the source", "5/C07"),
- "C08": ("truncation theorems: every strict prefix of a primitive encoding is EOF (Props/C18.v), block truncation / unknown flags / mapping mismatch (Props/Wire.v C08_* when present); exhaustive cut enumeration of this run's encodings against the implementation and the decoder model", "streams announcing >= 2^63 bins are outside the property's enumerated faults", "5/C08"),
- "C09": ("protobuf model (Wire/Proto.v) with parse . stream = id and Layer A round-trip theorems (Props/Proto.v); implementation-side oracles: streaming bytes unmarshal to the in-memory message, rebuild into every store kind, mixed messages against an exact shadow", "google.golang.org/protobuf and the generated ddsketch.pb.go are trusted as reference reader", "5/C09"),
- "C10": ("exact-arithmetic theorems about the very Gallina text that also runs on Flocq binary64 (Props/C10.v, 39 theorems: compensation identity, count/sum/min/max over all histories, merge = union, reweight/rescale algebra, decode = merge, clamp); the Flocq instance is replayed bit for bit against GetSum/GetCount/Min/Max", "partial: the float error bound of the compensated sum is validated ((5+2#scale+2#merge) 2^-53 sum|vw|), not proved", "5/C10"),
- "C11": ("weighted rank theorems (Props/Rank.v C11_*): exact arithmetic for arbitrary positive rational weights incl. W<1, rounded arithmetic for integer weights; corollaries answer-is-absorbed / between min and max; counterexample showing the +-1 bound fails for an adversarial rounding; correspondence + exact oracle", "for fractional weights the theorem is in exact arithmetic (dyadic weights make float64 exact)", "5/C11"),
- "C12": ("coherence theorems on Layer A (Props/Sketch.v C12_*): count additive through collapsing, emptiness, iteration, monotone quantiles within [min,max], non-None answers under explicit rounding premises; correspondence + oracles on branch-targeted data sets", "sum accuracy is validated only; premise rnd(count-1) < rnd(count) excludes totals >= 2^53 (outside every quantifier)", "5/C12"),
- "C13": ("decision-table theorems on the Flocq-level sketch model (Props/Sketch.v C13_*: add / quantile / merge / reweight refusals iff conditions, weight-0 adds are the identity, legacy refutations); correspondence at boundary floats with full observation before/after each refused call", "'state unchanged after a refused call' is by construction in a functional model; it is decided on the implementation by the bracketed observations", "5/C13"),
- "C14": ("purity theorems at store level (paginated reads_pure / foreach / compact / key_at_rank preserve abs; dense observers; dataset queries) + correspondence on interleavings of reads and copies", "independence of copies (aliasing) cannot be exhibited by a functional model: correspondence only", "5/C14"),
- "C15": ("clear-like-new theorems (dense, paginated) + correspondence with fresh twins over before/after history pairs, incl. decode targets and collapsing stores", "collapsing clear in progress", "5/C15"),
- "C16": ("reweight algebra on Layer A (Props/Sketch.v C16_*) and store refinements (dense, paginated reweight = bscale); twin oracle reweight vs scaled adds", "", "5/C16"),
- "C17": ("ideal-arithmetic model of changeStoreMapping with conservation / sign / support theorems (Props/ChangeMapping.v) + exact-rational oracle on the implementation (weight drift, negative bins, overlap, identity, combined quantile accuracy, statistics)", "partial: the model is ideal arithmetic and is not executed against the code; combined quantile accuracy is validated only", "5/C17"),
+ "C01": ("sketch-level rank theorem (Props/Rank.v C01_*): for every input, q and monotone mapping the answer is repr of an order statistic at floor/ceil of q(n-1), accuracy from the mapping hypotheses; transported to the executed Layer B sketch (Props/Refine.v Rf_executable_quantile_*) and to binary64 rounding (Props/Instance.v I_C01_*, Props/Rounding.v); correspondence: implementation vs extracted sketch model, every Index/Value the implementation reports is compared bit for bit with the glue model of its mapping before use; oracle in exact rationals against the true order statistics",
+         "partial w.r.t. the accuracy of the float64 evaluation of the mappings (libm: C03's gap)", "5/C01"),
+ "C02": ("merge algebra on Layer A (Props/Sketch.v C02_*: merge trees = flat adds, comm/assoc, empty no-op, collapsing normal form), all 25 store-kind pairs refine it (Props/Refine.v Rf_st_merge*, Rf_sk_merge, Rf_sketch_history); correspondence + twin oracle (merged sketch observes exactly like the single sketch, argument unchanged after later writes)",
+         "self-merge not claimed (outside the quantifier)", "5/C02"),
+ "C03": ("real-analysis theorems for the three ideal mappings (Props/C03.v, 51 theorems: monotone, containment, bin ratio, alpha-accuracy, constructor consistency, int32) + bit-exact Flocq model of the float code (Mapping/Glue.v; Props/Glue.v float-level lemmas) compared on every mapping instruction with Go's math.* answered by the implementation's runtime + exact-rational oracle on the implementation at adversarial points (bin edges +-ulps, binade boundaries, range ends)",
+         "partial: the accuracy of Go's math.Log/Exp/Exp2/Log2/Pow/Cbrt is validated (tolerance 1e-12), not proved", "5/C03"),
+ "C04": ("refinement theorems dense (Props/C04dense.v), paginated (Props/C04pag.v; observers loop by loop Props/C04pagloops.v), sparse (Props/C04sparse.v) stores -> Layer A for every operation, observer and history, for every growth/compaction policy and sort; executable policies Props/Refine.v Rf_st_*; Layer A algebra (Props/LayerA.v); correspondence on random programs + independent python shadow",
+         "Go maps/sort/append are modelled, not verified; Copy aliasing is decided by twins on the implementation only", "5/C04"),
+ "C05": ("collapsing-store refinement (Props/C05.v, 44 theorems: invariant, adjust/extend, add, merge = stepwise clamp, observers, reweight, clear, bounds) and clamp algebra on Layer A (Props/LayerA.v A8_*); correspondence on programs with 12 bin limits incl. wide-into-empty merges; len(bins) <= N through the hook",
+         "", "5/C05"),
+ "C06": ("wire theorems (Props/Wire.v C06_*, Props/WireAny.v C06_any_*): serialisation is a homomorphism, decoding = merging for receivers of all five store kinds, concatenation = merge, every store kind's encoder emits the grammar and round-trips (paginated incl. compaction); correspondence incl. the documentation-only decoder reading every implementation encoding; implementation-side oracles (all target kinds, prefixes, concatenations, decode-into-non-empty)",
+         "the sketch-level round-trip theorem covers the plain variant (exact-statistics blocks are run, and C10 checks them); weights must survive the +1/-1 transform", "5/C06"),
+ "C07": ("grammar theorems (Props/Wire.v C07_*, Props/WireRaw.v, Props/WireAny.v C07_any_*): the documentation-only parser inverts serialisation for every well-formed stream; the implementation decoder model accepts the grammar into all five store kinds; every encoder emits the grammar; correspondence: implementation bytes read by ref_decode_raw, grammar streams from an independent python encoder decoded by the implementation into every store kind, empty and non-empty receivers",
+         "flag constants are written down from the documentation, never derived from the source", "5/C07"),
+ "C08": ("truncation theorems: every strict prefix of a primitive encoding is EOF (Props/C18.v), block truncation / unknown flags / mapping mismatch / missing mapping for receivers of any kind, decoder total on prefixes (Props/Wire.v C08_*, Props/WireAny.v C08_any_*); exhaustive cut enumeration of this run's encodings against the implementation and the decoder model",
+         "streams announcing >= 2^63 bins are outside the property's enumerated faults", "5/C08"),
+ "C09": ("protobuf model (Wire/Proto.v) with parse . stream = id and Layer A round-trip theorems (Props/Proto.v, 43); implementation-side oracles: streaming bytes unmarshal to the in-memory message, rebuild into every store kind and through FromProto / store.FromProto, mixed messages against an exact shadow",
+         "google.golang.org/protobuf and the generated ddsketch.pb.go are trusted as reference reader", "5/C09"),
+ "C10": ("exact-arithmetic theorems about the very Gallina text that also runs on Flocq binary64 (Props/C10.v, 39 theorems: compensation identity, count/sum/min/max over all histories, merge = union, reweight/rescale algebra, decode = merge, clamp); the Flocq instance is replayed bit for bit against the sketch getters and against stat.SummaryStatistics used directly (every method, incl. Reweight(0), negative and zero Rescale, infinities, NaN)",
+         "partial: the float error bound of the compensated sum is validated ((5+2#scale+2#merge) 2^-53 sum|vw|), not proved", "5/C10"),
+ "C11": ("weighted rank theorems (Props/Rank.v C11_*): exact arithmetic for arbitrary positive rational weights incl. W<1, rounded arithmetic for integer weights (Props/Instance.v I_C11_*); corollaries answer-is-absorbed / between min and max; counterexample showing the +-1 bound fails for an adversarial rounding; correspondence + exact oracle",
+         "for fractional weights the theorem is in exact arithmetic (dyadic weights make float64 exact)", "5/C11"),
+ "C12": ("coherence theorems on Layer A (Props/Sketch.v C12_*): count additive through collapsing, emptiness, iteration, monotone quantiles within [min,max], non-None answers under explicit rounding premises, instantiated at binary64 (Props/Instance.v I_C12_*); Props/Refine.v for the executed sketch; correspondence + oracles on branch-targeted data sets",
+         "sum accuracy is validated only; premise rnd(count-1) < rnd(count) excludes totals >= 2^53 (outside every quantifier)", "5/C12"),
+ "C13": ("decision-table theorems on the Flocq-level sketch model (Props/Sketch.v C13_*: add / quantile / merge / reweight refusals iff conditions, weight-0 adds are the identity, legacy refutations); Props/Refine.v no_panic/too_high/too_low; correspondence at boundary floats with full observation before/after each refused call, all constructors incl. the convenience ones, store-level refusals",
+         "'state unchanged after a refused call' is by construction in a functional model; it is decided on the implementation by the bracketed observations", "5/C13"),
+ "C14": ("purity theorems at store level (paginated reads_pure / foreach / compact / key_at_rank preserve abs, loop-level observers; dense and collapsing observers; dataset queries; Props/Refine.v reads_pure, quantile_pure, copy) + correspondence on interleavings of reads and copies",
+         "independence of copies (aliasing) cannot be exhibited by a functional model: twins on the implementation only", "5/C14"),
+ "C15": ("clear-like-new theorems (dense, collapsing, paginated, sparse; sketch level Props/Sketch.v C15_*; Props/Refine.v) + correspondence with fresh twins over before/after history pairs, incl. decode targets and collapsing stores", "", "5/C15"),
+ "C16": ("reweight algebra on Layer A (Props/Sketch.v C16_*) and store refinements (dense, collapsing, paginated reweight = bscale; Props/Refine.v); twin oracle reweight vs scaled adds", "", "5/C16"),
+ "C17": ("ideal-arithmetic model of changeStoreMapping with conservation / sign / support theorems (Props/ChangeMapping.v) + exact-rational oracle on the implementation (weight drift, negative bins, overlap, identity, combined quantile accuracy, statistics)",
+         "partial: combined quantile accuracy is validated only", "5/C17"),
  "C18": ("29 theorems over all 2^64 values / all byte lists (Props/C18.v) + correspondence incl. all byte strings of length <= 1 (quick) / 2 (thorough)", "NaN payloads are not modelled (signalling NaNs excluded from the varfloat comparison)", "5/C18"),
- "C19": ("separation of gamma over the reals (Props/C19real.v), Equals laws and binary round trip on Flocq floats (Props/C19.v when present) + implementation-side identity checks through every serialized form", "gamma through math.Pow is compared with the implementation's own field, not proved", "5/C19"),
- "C20": ("34 theorems over all histories (Props/C20.v) + correspondence + exact oracle", "sum float error validated only", "5/C20"),
+ "C19": ("separation of gamma over the reals (Props/C19real.v), Equals laws and binary round trip on Flocq floats (Props/C19.v, 25) + bit-exact glue model + implementation-side identity checks through every serialized form", "gamma through math.Pow is compared with the implementation's own field, not proved", "5/C19"),
+ "C20": ("34 theorems over all histories (Props/C20.v; Props/Instance.v I_C20_*) + correspondence + exact oracle", "sum float error validated only", "5/C20"),
 }
 def main():
     checks, na = [], []
